@@ -315,4 +315,51 @@ pub fn extras(g: &mut Gen) {
 
 pub fn run(seed: u64, thorough: bool, rep: &mut Report) {
     crate::towerhist::run_mode(seed ^ 0xc15, thorough, rep, true);
+    busy_tower(rep);
+}
+
+/// a valid request sent while the tower is busy for several seconds (the database lock is held elsewhere, as during a
+/// long block): whatever the HTTP layer answers, a non-200 answer must go with an unchanged tower — also a little later,
+/// once the tower is free again (monitor only: the timing is the scenario)
+fn busy_tower(rep: &mut Report) {
+    let boot = BootChain::new();
+    rep.begin_case("busy-tower");
+    rep.uncompared = true;
+    let mut sys = TowerSys::boot((5, 400, 6), 120, &boot, rep);
+    let front = std::sync::Arc::new(crate::httpfront::HttpFront::start(sys.api.clone()));
+    sys.http = Some(front.clone());
+    sys.exec(&HOp::Reg { user: 1 }, rep);
+    let before = sys.dump();
+    let locator = sys.locator(2);
+    let blob = vec![0x5au8; 40];
+    let appt = teos_common::appointment::Appointment::new(locator, blob.clone(), 7);
+    let sig = teos_common::cryptography::sign(&appt.to_vec(), &user_key(1).sk);
+    let body = serde_json::to_vec(&json!({"appointment": {"locator": hex::encode(locator.to_vec()), "encrypted_blob": hex::encode(blob), "to_self_delay": 7}, "signature": sig})).unwrap();
+    let dbm = sys.dbm.clone();
+    let holder = std::thread::spawn(move || {
+        let _g = dbm.lock().unwrap();
+        std::thread::sleep(Duration::from_millis(6500));
+    });
+    std::thread::sleep(Duration::from_millis(300));
+    let head = format!("POST /add_appointment HTTP/1.1\r\nHost: 127.0.0.1\r\nContent-Type: application/json\r\nContent-Length: {}\r\nConnection: close\r\n\r\n", body.len());
+    let mut req = head.into_bytes();
+    req.extend_from_slice(&body);
+    let t0 = Instant::now();
+    let reply = front.raw(&req, Duration::from_secs(20));
+    let took = t0.elapsed();
+    let _ = holder.join();
+    // let whatever is still running in the tower finish
+    std::thread::sleep(Duration::from_millis(1500));
+    let after = sys.dump();
+    let (status, code) = match &reply {
+        Some(r) => (r.status, if r.status == 200 { 0 } else { parse_error(&r.body) }),
+        None => (0, 0),
+    };
+    rep.line("ht busy add_appointment", &format!("{status} {code} after {} ms", took.as_millis()));
+    rep.count("busy-tower-request");
+    check_documented(rep, status, code, true, "valid add_appointment while the tower is busy for 6.5 s");
+    if status != 200 && before != after {
+        rep.fail("C15", "refused_request_changed_state", &format!("a valid add_appointment sent while the tower was busy was answered {status} (error code {code}) after {} ms, yet the tower executed it afterwards: {before} -> {after}", took.as_millis()));
+    }
+    rep.end_case(Some("busy-tower".into()));
 }
